@@ -839,6 +839,9 @@ func (p *pkgInfo) atomShape(recv, name string) ([]string, error) {
 				out = append(out, n.Tok.String())
 				return false
 			case *ast.CallExpr:
+				if id, ok := n.Fun.(*ast.Ident); ok && strings.HasPrefix(id.Name, "verif") {
+					return false // schedule-point hooks are not part of the algorithm
+				}
 				for _, a := range n.Args {
 					walk(a)
 				}
